@@ -290,6 +290,25 @@ func zz4OracleLatest(log []zz4E, o zz4Opts) (int, []int, int) {
 	}
 }
 
+// zz4Agree asserts that the reader's error class agrees with the reference
+// scan: a result where the scan defines one; the not-found error where no
+// entry qualifies on an intact log; and, on a tampered log or with unusable
+// options, an error of any class (fail closed) rather than a result.
+func zz4Agree(cls, wantCls int, tampered bool, label string) {
+	switch wantCls {
+	case zz4OK:
+		verif.Assert(cls == zz4OK, label+":result-expected")
+	case zz4NotFound:
+		if tampered {
+			verif.Assert(cls != zz4OK, label+":error-expected")
+		} else {
+			verif.Assert(cls == zz4NotFound, label+":not-found-expected")
+		}
+	default:
+		verif.Assert(cls != zz4OK, label+":error-expected")
+	}
+}
+
 func zz4CheckAnnotations(log []zz4E, got []*AnnotationEntry, want []int, label string) {
 	verif.Assert(len(got) == len(want), label+"-count")
 	if len(got) != len(want) {
@@ -325,7 +344,12 @@ func zz4LatestHarness(tampered bool) {
 		opts = append(opts, ForReference(o.ref))
 	}
 	o.beforePos, o.untilPos = -1, -1
-	switch verif.Concrete(verif.Choice("opt.before", 3)) {
+	nb, nu := 3, 3
+	if tampered {
+		// quick tier: before by id only, until by number only
+		nb, nu = verif.Bound("tampered.before.choices", 2, 3), verif.Bound("tampered.until.choices", 2, 3)
+	}
+	switch verif.Concrete(verif.Choice("opt.before", nb)) {
 	case 1:
 		o.beforePos = verif.IntRange("opt.beforepos", 0, n) // n = id not in the log
 		id := zz4ID(0)
@@ -335,7 +359,11 @@ func zz4LatestHarness(tampered bool) {
 		o.beforeNum = verif.Uint64("opt.beforenum")
 		opts = append(opts, BeforeEntryNumber(o.beforeNum))
 	}
-	switch verif.Concrete(verif.Choice("opt.until", 3)) {
+	untilKind := verif.Concrete(verif.Choice("opt.until", nu))
+	if nu == 2 && untilKind == 1 {
+		untilKind = 2
+	}
+	switch untilKind {
 	case 1:
 		o.untilPos = verif.IntRange("opt.untilpos", 0, n)
 		id := zz4ID(0)
@@ -366,18 +394,12 @@ func zz4LatestHarness(tampered bool) {
 	want, wantAnns, wantCls := zz4OracleLatest(log, o)
 	cls := zz4Classify(err)
 
-	if tampered {
-		// fail closed: an answer is only acceptable if the reference scan
-		// determines it without crossing the corruption
-		verif.Assert(cls == wantCls, "tampered-error-class")
-	} else {
-		verif.Assert(cls == wantCls, "error-class")
-	}
+	zz4Agree(cls, wantCls, tampered, "latest")
 	if cls == zz4OK && wantCls == zz4OK {
 		verif.Reach("found")
 		verif.Assert(got.GetID().Equal(log[want].id), "entry")
 		zz4CheckAnnotations(log, gotAnns, wantAnns, "annotations")
-	} else if cls == wantCls {
+	} else if cls != zz4OK && wantCls != zz4OK {
 		verif.Reach("error-agreed")
 	}
 }
@@ -437,12 +459,12 @@ func zz4FirstHarness(tampered bool) {
 			wantCls = zz4NotFound
 		}
 	}
-	verif.Assert(cls == wantCls, "first-error-class")
+	zz4Agree(cls, wantCls, tampered, "first")
 	if cls == zz4OK && wantCls == zz4OK {
 		verif.Reach("found")
 		verif.Assert(got.GetID().Equal(log[want].id), "first-entry")
 		zz4CheckAnnotations(log, gotAnns, zz4AllAnnotationsNewestFirst(log, want, want), "first-annotations")
-	} else if cls == wantCls {
+	} else if cls != zz4OK && wantCls != zz4OK {
 		verif.Reach("error-agreed")
 	}
 }
@@ -482,12 +504,12 @@ func zz4NonGittufParentHarness(tampered bool) {
 		}
 		i, wantCls = zz4Step(log, i)
 	}
-	verif.Assert(cls == wantCls, "parent-error-class")
+	zz4Agree(cls, wantCls, tampered, "parent")
 	if cls == zz4OK && wantCls == zz4OK {
 		verif.Reach("found")
 		verif.Assert(got.GetID().Equal(log[want].id), "parent-entry")
 		zz4CheckAnnotations(log, gotAnns, zz4AllAnnotationsNewestFirst(log, want, want), "parent-annotations")
-	} else if cls == wantCls {
+	} else if cls != zz4OK && wantCls != zz4OK {
 		verif.Reach("error-agreed")
 	}
 }
@@ -529,9 +551,9 @@ func zz4RangeHarness(tampered bool) {
 	for wantCls == zz4OK && i != first {
 		i, wantCls = zz4Step(log, i) // walking below the root yields not-found (first newer than last)
 	}
-	verif.Assert(cls == wantCls, "range-error-class")
+	zz4Agree(cls, wantCls, tampered, "range")
 	if cls != zz4OK || wantCls != zz4OK {
-		if cls == wantCls {
+		if cls != zz4OK && wantCls != zz4OK {
 			verif.Reach("error-agreed")
 		}
 		return
